@@ -1023,10 +1023,17 @@ class Interp:
                     return Obj(None, {"pattern": Const(expr.args[0].value)}, label=f"re.Pattern({expr.args[0].value!r})")
                 hint = self.p.resolve_class(mod, expr.func)
                 return Term("global", f"{mod.name}.{name}", hint=hint)
+            # module-level mutable objects (caches, registries) are one object per interpreter run
+            gc = self.__dict__.setdefault("_globals", {})
+            key = (mod.name, name)
+            if key in gc:
+                return gc[key]
             try:
-                return self.eval_in_module(mod, expr)
+                v = self.eval_in_module(mod, expr)
             except Undecided:
-                return Term("global", f"{mod.name}.{name}")
+                v = Term("global", f"{mod.name}.{name}")
+            gc[key] = v
+            return v
         raise Undecided(f"entity {ent}")
 
     def ex_Attribute(self, e, frame):
@@ -1364,6 +1371,15 @@ class Interp:
         return v
 
     def _compare(self, op, l, r, node) -> Value:
+        if op in ("Eq", "NotEq") and isinstance(l, Obj) and l.cls is not None and l is not r:
+            eqm = l.cls.find_method("__eq__")
+            pol = self.opts.get("inline", lambda fi, node: False)
+            if eqm is not None and pol(eqm, node):
+                res = self.run_function(Fn(eqm, l), [r], {}, node)
+                t = self.truth_of(res)
+                if t is not None:
+                    return Const(t if op == "Eq" else not t)
+                return res if op == "Eq" else Term("not", res)
         if op in ("Eq", "NotEq", "Is", "IsNot"):
             s = same_value(l, r)
             if s is None and op in ("Eq", "NotEq"):
